@@ -86,7 +86,7 @@ func readOnlyLeaf(f *ssa.Function) bool {
 // whose value is still what memory holds at the call.
 func (z *zoneEngine) currentCallerLoad(c *ssa.Call, arg ssa.Value, fieldIdx int, tn, fld string) *ssa.UnOp {
 	var found *ssa.UnOp
-	eachInstr(c.Parent(), func(in ssa.Instruction) {
+	eachInstrRaw(c.Parent(), func(in ssa.Instruction) {
 		if found != nil {
 			return
 		}
@@ -305,7 +305,7 @@ func noFieldStoreBetween(a, b ssa.Instruction, tn, fld string) bool {
 		return false
 	}
 	var stores []ssa.Instruction
-	eachInstr(fn, func(in ssa.Instruction) {
+	eachInstrRaw(fn, func(in ssa.Instruction) {
 		if in != b && isStore(in) {
 			stores = append(stores, in)
 		}
@@ -331,7 +331,7 @@ func (z *zoneEngine) classBoundAt(at ssa.Instruction, tn, fld string) (int64, bo
 			continue
 		}
 		clean := true
-		eachInstr(fn, func(in ssa.Instruction) {
+		eachInstrRaw(fn, func(in ssa.Instruction) {
 			if !clean {
 				return
 			}
